@@ -452,11 +452,15 @@ impl UndoOperation for Paste {
 #[derive(Default)]
 pub struct AddFloatingLayer {
     current_layer: usize,
+    old_role_and_title: Option<(crate::Role, String)>,
 }
 
 impl AddFloatingLayer {
     pub(crate) fn new(current_layer: usize) -> Self {
-        Self { current_layer }
+        Self {
+            current_layer,
+            old_role_and_title: None,
+        }
     }
 }
 
@@ -467,18 +471,24 @@ impl UndoOperation for AddFloatingLayer {
 
     fn undo(&mut self, edit_state: &mut EditState) -> EngineResult<()> {
         if let Some(layer) = edit_state.buffer.layers.get_mut(self.current_layer) {
-            if matches!(layer.role, crate::Role::Image) {
-                layer.role = crate::Role::PasteImage;
+            if let Some((role, title)) = self.old_role_and_title.take() {
+                layer.role = role;
+                layer.properties.title = title;
             } else {
-                layer.role = crate::Role::PastePreview;
+                if matches!(layer.role, crate::Role::Image) {
+                    layer.role = crate::Role::PasteImage;
+                } else {
+                    layer.role = crate::Role::PastePreview;
+                }
+                layer.properties.title = fl!(crate::LANGUAGE_LOADER, "layer-pasted-name");
             }
-            layer.properties.title = fl!(crate::LANGUAGE_LOADER, "layer-pasted-name");
         }
         Ok(())
     }
 
     fn redo(&mut self, edit_state: &mut EditState) -> EngineResult<()> {
         if let Some(layer) = edit_state.buffer.layers.get_mut(self.current_layer) {
+            self.old_role_and_title = Some((layer.role, layer.properties.title.clone()));
             if matches!(layer.role, crate::Role::PasteImage) {
                 layer.role = crate::Role::Image;
             } else {
